@@ -49,6 +49,131 @@ def _acc_rcvd(E):
         env["g_acc"] = Sym(z3.Concat(cur, zbytes(d)), "bytes")
 
 
+# ------------------------------------------------------------------ native doubles (cross-check and replay)
+import collections as _collections
+import errno as _errno
+
+
+class SockD:
+    """scripted socket: steps ('n', count) | ('err', errno, tls) for send, ('d', bytes) | ('err', ...) for recv"""
+    def __init__(self, script):
+        self.script = list(script)
+        self.wire = b""
+        self.got = b""
+        self.raised = False
+        self.errno = 0
+
+    def _err(self, step):
+        import ssl as _ssl
+        self.raised = True
+        self.errno = step[1]
+        raise (_ssl.SSLError if step[2] else OSError)(step[1], "scripted")
+
+    def send(self, data):
+        step = self.script.pop(0) if self.script else ("n", len(data))
+        if step[0] == "err":
+            self._err(step)
+        n = max(0, min(step[1], len(data)))
+        self.wire += bytes(data[:n])
+        return n
+
+    def recv(self, n):
+        step = self.script.pop(0) if self.script else ("d", b"")
+        if step[0] == "err":
+            self._err(step)
+        d = bytes(step[1])[:n]
+        self.got += d
+        return d
+
+
+class WLogD:
+    def __init__(self):
+        self.txcat = b""
+        self.rxcat = b""
+
+    def writeTx(self, ha, data):
+        self.txcat += bytes(data)
+
+    def writeRx(self, ha, data):
+        self.rxcat += bytes(data)
+
+
+class DequeD(_collections.deque):
+    """deque with the front/back offsets of the model (lo counts front removals minus front insertions)"""
+    lo = 0
+    hi = 0
+
+    def append(self, x):
+        self.hi += 1
+        return super().append(x)
+
+    def appendleft(self, x):
+        self.lo -= 1
+        return super().appendleft(x)
+
+    def popleft(self):
+        x = super().popleft()
+        self.lo += 1
+        return x
+
+
+class BArrD(bytearray):
+    @property
+    def content(self):
+        return bytes(self)
+
+
+ERR_POOL = [_errno.EAGAIN, _errno.EWOULDBLOCK, _errno.ECONNRESET, _errno.ENETRESET, _errno.ENETUNREACH,
+            _errno.EHOSTUNREACH, _errno.ENETDOWN, _errno.EHOSTDOWN, _errno.ETIMEDOUT, _errno.ECONNREFUSED,
+            _errno.EPIPE, _errno.EINVAL, 2, 3, 8]
+
+
+def _mk_transport(cls, tls, op):
+    def make(rng, i, cex, nr):
+        import importlib
+        timing = importlib.import_module("ioflo.aid.timing")
+        klass = getattr(nr.mod, cls)
+        o = object.__new__(klass)
+        nmsg = rng.randint(0, 3)
+        msgs = [bytes(rng.randrange(256) for _ in range(rng.randint(0, 6))) for _ in range(nmsg)]
+        script = []
+        for _ in range(rng.randint(0, 6)):
+            r = rng.random()
+            if r < 0.3:
+                script.append(("err", rng.choice(ERR_POOL), tls and rng.random() < 0.6))
+            elif op in ("receive", "serviceReceives", "serviceReceiveOnce"):
+                script.append(("d", bytes(rng.randrange(256) for _ in range(rng.randint(0, 5)))))
+            else:
+                script.append(("n", rng.randint(0, 7)))
+        o.cs = SockD(script)
+        o.bs = 4096
+        o.wlog = WLogD() if rng.random() < 0.7 else None
+        o.cutoff = False
+        o.txes = DequeD()
+        for m in msgs:
+            o.txes.append(m)
+        o.rxbs = BArrD(bytes(rng.randrange(256) for _ in range(rng.randint(0, 3))))
+        o._accepted = True
+        o._connected = True
+        o.ha = ("127.0.0.1", 1)
+        o.ca = ("127.0.0.1", 2)
+        o.refreshable = rng.random() < 0.7
+        st = timing.Stamper(rng.randint(0, 80) / 8.0)
+        o.timer = timing.StoreTimer(st, duration=rng.choice([0.5, 1.0, 2.0]))
+        st.advance(rng.choice([0.0, 0.25, 0.75]))
+        o.timeout = 1.0
+        env = {"self": o}
+        if "data" in nr.params:
+            env["data"] = bytes(rng.randrange(256) for _ in range(rng.randint(0, 6)))
+        return env
+    return make
+
+
+def _tview(env, nr):
+    cs = env["self"].cs
+    return {"sock_raised": cs.raised, "errno": cs.errno}
+
+
 def sock_setup(E):
     E.ghost["sock_raised"] = False
     E.ghost["errno"] = 0
@@ -105,7 +230,8 @@ def transport(cls, rel, tls, prop="C24,C25", base=None, native=None, idle=False)
              ],
              raises={"OSError": ["errno not in %s and errno not in %s" % (wb, loss),
                                  "self.cutoff == old(self.cutoff) and self.cs.wire == old(self.cs.wire)"]},
-             returns=INT, findings={"tls-eof": "True"} if tls else {})
+             returns=INT, findings={"tls-eof": "True"} if tls else {},
+             replay=dict(make=_mk_transport(cls, tls, "send"), view=_tview, count=400))
     contract(rel, cls + ".receive", prop, params=dict(P), setup=sock_setup, requires=IDLE_REQ,
              modifies=["self.cs.got", "self.wlog.rxcat", "self.cutoff"] + IDLE_MOD,
              ensures=IDLE_RECV + [
@@ -124,12 +250,14 @@ def transport(cls, rel, tls, prop="C24,C25", base=None, native=None, idle=False)
              ],
              raises={"OSError": ["errno not in %s and errno not in %s" % (wb, loss),
                                  "self.cutoff == old(self.cutoff) and self.cs.got == old(self.cs.got)"]},
-             returns=Opt(BYTES), findings={"tls-eof": "True"} if tls else {})
+             returns=Opt(BYTES), findings={"tls-eof": "True"} if tls else {},
+             replay=dict(make=_mk_transport(cls, tls, "receive"), view=_tview, count=400))
     if base is not None:
         return
     contract(rel, cls + ".tx", "C24", params=dict(P, data=BYTES), requires=["self.txes.lo <= self.txes.hi"],
              modifies=["self.txes.hi", "self.txes.buf[*]"],
-             ensures=["flat(self.txes) == old(flat(self.txes)) + data", "self.txes.lo == old(self.txes.lo)"])
+             ensures=["flat(self.txes) == old(flat(self.txes)) + data", "self.txes.lo == old(self.txes.lo)"],
+             replay=dict(make=_mk_transport(cls, tls, "tx"), view=_tview, count=100))
     CONS = "self.cs.wire + flat(self.txes) == old(self.cs.wire) + old(flat(self.txes))"
     # ghost g_acc (L_g_acc in post-conditions): concatenation of the prefixes the socket accepted in this call
     WIREG = "self.cs.wire == old(self.cs.wire) + %s"
@@ -147,7 +275,7 @@ def transport(cls, rel, tls, prop="C24,C25", base=None, native=None, idle=False)
                  WIREG % "L_g_acc", LOGG % "L_g_acc",
                  "self.txes.hi == old(self.txes.hi)",
              ],
-             raises={"OSError": ["True"]},
+             raises={"OSError": ["True"]}, replay=dict(make=_mk_transport(cls, tls, "serviceTxes"), view=_tview, count=600),
              note="an error other than would-block / connection-loss propagates (C25); the message being sent at "
                   "that moment is not requeued - outside the statement's quantifier (partial sends and would-block)")
     # received chunks are appended to the receive buffer in arrival order: buffer and socket grow by the same bytes
@@ -156,8 +284,10 @@ def transport(cls, rel, tls, prop="C24,C25", base=None, native=None, idle=False)
              setup=ghost_acc_setup, ghost={"after": {"data = self.receive()": _acc_rcvd}},
              modifies=["self.cs.got", "self.wlog.rxcat", "self.cutoff", "self.rxbs.content"] + IDLE_MOD,
              loops={0: dict(inv=[RXG % ("g_acc", "g_acc")] + IDLE_REQ, locals={"g_acc": BYTES})},
-             ensures=[RXG % ("L_g_acc", "L_g_acc")],
-             raises={"OSError": ["True"]})
+             ensures=[RXG % ("L_g_acc", "L_g_acc"),
+                      "self.rxbs.content == old(self.rxbs.content) + since(self.cs.got, old(self.cs.got))"],
+             raises={"OSError": ["True"]},
+             replay=dict(make=_mk_transport(cls, tls, "serviceReceives"), view=_tview, count=400))
     contract(rel, cls + ".serviceReceiveOnce", "C24", params=dict(P), requires=IDLE_REQ,
              setup=ghost_acc_setup, ghost={"after": {"data = self.receive()": _acc_rcvd}},
              modifies=["self.cs.got", "self.wlog.rxcat", "self.cutoff", "self.rxbs.content"] + IDLE_MOD,
